@@ -64,11 +64,13 @@ func strideOffset(t *Term) (stride, off int, mu string, ok bool) {
 }
 
 // analyseKernel evaluates mcToTriangles / msToLines.
-//   nverts: 3 (triangles) or 2 (lines); interp: name of the interpolation
-//   function; degen: name of the degenerate test.
+//
+//	nverts: 3 (triangles) or 2 (lines); interp: name of the interpolation
+//	function; degen: name of the degenerate test.
 func analyseKernel(ctx *Ctx, fn *ssa.Function, nverts int, interp string) (*kernelFacts, error) {
 	mark := len(recOrder)
 	ev := newEval(ctx, interp, "Degenerate")
+	ev.symbolicElems = true
 	ev.evalRoot(fn)
 	if ev.Exceeded {
 		return nil, fmt.Errorf("evaluation budget exceeded")
